@@ -33,6 +33,13 @@ CHECKS["C20"] = dict(
     technique="interprocedural taint (information-flow) analysis over the clang CFG",
 )
 
+CHECKS["C05"] = dict(
+    text="Static decision of the well-formedness / soundness-guard clauses over all 27 cp_*_ver verifiers and the RSA padding checker: every statement that can turn the verdict to accept is dominated (forward must-dataflow with branch atoms over the exploded CFG) by the guard predicates recorded per verifier in sa/tables/c05_guards.json (range, sign, non-zero, on-curve, not-identity, subgroup, padding-status tests over parameters and the group order; semantic entailment, not text); no path through a catch-body returns a possibly-accepting verdict (may-analysis incl. the fall-through of a rethrow outside any handler); verdicts are only narrowed inside loops; statuses of checking operations are consumed. Right level: guards that are present but never triggered are indistinguishable from absent ones for the suite. Completeness and the verification equations themselves are not decided.",
+    design_ref="DESIGN.md section 3 (C05)",
+    note="Trusted: clang parser/CFG, extractor, the guard table (inferred from the tree with tools/infer_c05_guards.py, read against the source for ECDSA, EC-Schnorr, BLS, BBS, PSS, RSA, pad_pkcs2; a row whose verifier or accept-event group vanished is analysis-broken; a new accept statement outside the recorded groups is a violation). Verifiers whose recorded guard list is empty are covered by VER-CATCH/VER-AGG only. Validated on every run by miniatures in sa/selftest/c05.c.",
+    technique="forward must-dataflow (guard dominance at accept events) + may-analysis over exceptional edges on the clang CFG",
+)
+
 NOT_APPLICABLE = {
     "C10": "every clause is an equality of ring elements for all operand values; no guard, ordering or ownership structure whose violation is visible in the code's shape, and lazy-reduction bounds need a relational numeric domain that goto-analyzer's intervals cannot carry across the *_low calls",
     "C11": "group law, [k]Q, Frobenius eigenvalue and cofactor image are algebraic identities over runtime values; the structural clauses (decoders, buffers, regularity) of the ep2..ep8 siblings are decided under C07, C08 and C20",
